@@ -177,7 +177,8 @@ class Insn:
 
 
 class Program:
-    def __init__(self, text):
+    def __init__(self, text, comm_zero=False):
+        self.comm_zero = comm_zero      # treat `.comm sym, n` as n zero bytes (program start of a single-unit program)
         self.insns = []
         self.labels = {}        # name -> index (for numeric labels: list of indices)
         self.numeric = {}       # "1" -> [indices]
@@ -222,6 +223,9 @@ class Program:
                         section = d[1].split(",")[0]
                     elif d[0] == ".type" and "@function" in piece:
                         self.funcs[d[1].rstrip(",")] = None
+                    elif d[0] == ".comm":
+                        if self.comm_zero:
+                            self.data[d[1].rstrip(",")] = [("zero", _int(d[2].rstrip(",")))]
                     elif section != "text" and cur_data is not None:
                         if d[0] == ".byte":
                             self.data[cur_data].append(("byte", _int(d[1])))
